@@ -18,8 +18,13 @@ TUPLES = [
     "extr:0;fmg:1;strat:1;maxit:0;div2:0",                        # t4 zero-iteration solve
     "extr:3;fmg:1;strat:1;maxit:3;div2:0;exact:0",                # t5 iteration-limited, no exact solution
     "extr:1;fmg:0;strat:0;maxit:150;div2:0;dirbc:1;cycle:1",      # t6 (thorough)
-    "extr:3;fmg:0;strat:1;maxit:150;div2:0;maxlev:2;norm:2;pre:2" # t7 (thorough)
+    "extr:3;fmg:0;strat:1;maxit:150;div2:0;maxlev:2;norm:2;pre:2", # t7 (thorough)
+    # solve-time-only variations of t0 / t1: applied WITHOUT a new setup() (block count < 0)
+    "extr:0;fmg:0;strat:0;maxit:150;div2:0;cycle:1;pre:2;post:2",  # t8  = t0 + other cycle / smoothing steps
+    "extr:0;fmg:0;strat:0;maxit:3;div2:0;norm:2;abstol:1e-4",      # t9  = t0 + iteration limit / norm / tolerance
+    "extr:1;fmg:1;strat:1;maxit:150;div2:0;cycle:2;fmg_cycle:1;fmg_it:1;reltol:1e-5",  # t10 = t1 + other cycles
 ]
+NOSETUP = {0: [8, 9], 8: [0, 9], 9: [0, 8], 1: [10], 10: [1]}   # tuples that differ in solve-time options only
 
 
 def _build():
@@ -45,9 +50,16 @@ def histories(tier):
             for ns in itertools.product((1, 2), repeat=d):
                 out.append(list(zip(tup, ns)))
     # solve-without-setup after an option change that does not need a new setup (negative count = no setup())
-    for a, b in itertools.product(range(nt), repeat=2):
-        if TUPLES[a].split(";div2")[1][:2] == TUPLES[b].split(";div2")[1][:2]:
-            pass
+    for a, bs in NOSETUP.items():
+        for b in bs:
+            for n1 in (1, 2):
+                out.append([(a, n1), (b, -1)])
+                out.append([(a, n1), (b, -2)])
+                for c in NOSETUP.get(b, []):
+                    out.append([(a, n1), (b, -1), (c, -1)])
+                if tier == "thorough":
+                    for t in range(nt):
+                        out.append([(t, 1), (a, n1), (b, -1)])
     return out
 
 
@@ -86,7 +98,7 @@ def main(tier):
         if r.get("status") != "ok":
             rep.violation("exception", "history %s threw: %s" % (hist_s, r.get("what")), {"history": hist_s, "tuples": TUPLES})
             continue
-        transitions += int(r["steps"]) + len(h) * 2
+        transitions += int(r["steps"]) + sum(2 if n > 0 else 1 for _, n in h)
         for st in r.get("trace", "").split("|"):
             if st:
                 states.add(st)
@@ -96,14 +108,16 @@ def main(tier):
                           "fresh object with the same options: %s" % (hist_s, {("t%d" % t): TUPLES[t] for t, _ in h}, w),
                           {"history": hist_s, "tuples": TUPLES})
     cov = {
-        "states": len(states) * len(TUPLES[:(8 if tier == "thorough" else 6)]),
+        "states": len(states) * (11 if tier == "thorough" else 9),
         "transitions": transitions,
         "traces_validated_against_impl": len(hs),
         "evaluations": len(hs),
         "distinct_nontrivial": len(hs),
         "distinct_hidden_states": sorted(states)[:12],
         "rule": "all histories of <= %d blocks (option tuple, setup, 1 or 2 solves) over %d option tuples on one object "
-                "(17x32 / 33x64, Shafranov, PolarR6, Zoni gyro); after EVERY solve the observation (solution bitwise, iterations, "
+                "(17x32 / 33x64, Shafranov, PolarR6, Zoni gyro), plus histories in which solve-time options (cycle type, smoothing "
+                "steps, iteration limit, norm type, tolerances, FMG cycle) are changed and solve() is called WITHOUT a new setup(); "
+                "after EVERY solve the observation (solution bitwise, iterations, "
                 "reduction factor, both error figures) is compared with a freshly constructed solver; states = distinct hidden "
                 "state strings (levels, residual history length, error history length, full_grid_smoothing, iterations) x tuples; "
                 "transitions = setter blocks, setup() and solve() calls" % (3 if tier == "thorough" else 2, 8 if tier == "thorough" else 6),
